@@ -47,6 +47,7 @@ def Act.evs (l : Leaf) : Act → List Ev
   | .use p _ => leafEvs .use l p.leaves
   | .give p => leafEvs .give l p.leaves
   | .dropAfter => []
+  | .moveOut => []
 
 /-- what a statement requires / takes / produces, per leaf, in evaluation order -/
 def Stmt.evs (l : Leaf) (st : Stmt) : List Ev :=
@@ -94,11 +95,12 @@ structure LeafGood (P : Prog) (l : Leaf) : Prop where
 
 /-- ownership rules that do not depend on the path: a whole borrowed variable is never moved,
     consumed, returned or reassigned, no linear result is discarded, no linear unnamed value is
-    lent to a callee (it could not be handed back) -/
+    lent to a callee (it could not be handed back), no linear element moved out of a subscript -/
 def Act.StaticOK (P : Prog) : Act → Prop
   | .use p borrow => borrow = false → isInoutVar P p = false
   | .give _ => True
   | .dropAfter => False
+  | .moveOut => False
 
 def Stmt.StaticOK (P : Prog) (st : Stmt) : Prop :=
   (∀ a ∈ st.acts, a.StaticOK P) ∧ (∀ t ∈ st.tgts, isInoutVar P t = false) ∧ st.dropsLin = false
@@ -120,7 +122,7 @@ def Prog.rowKind (P : Prog) (b : Blk) (l : Leaf) : Option Bool :=
 def Ev.kstep (k : Option Bool) (e : Ev) : Option (Option Bool) :=
   match e.op with
   | .use => if k = some e.lin then some k else none
-  | .give => if k = some e.lin then some k else none
+  | .give => if k = some e.lin ∨ k = none then some (some e.lin) else none
   | .asg => some (some e.lin)
 
 def krun (k : Option Bool) : List Ev → Option (Option Bool)
@@ -151,7 +153,7 @@ def Prog.kindsOKb (P : Prog) : Bool :=
     exit, the exit is empty and final, every other block continues somewhere; within a statement
     a lent place is handed back only after it was lent -/
 structure Prog.WF (P : Prog) : Prop where
-  acts : ∀ b ∈ P.blocks, ∀ st ∈ P.stmts b, actsWf [] st.acts = true
+  acts : ∀ b ∈ P.blocks, ∀ st ∈ P.stmts b, actsWf P.rowIds [] st.acts = true
   entryIn : P.entry ∈ P.blocks
   closed : ∀ b ∈ P.blocks, ∀ c ∈ P.succ b, c ∈ P.blocks
   entryNoPred : ∀ b ∈ P.blocks, P.entry ∉ P.succ b
